@@ -11,7 +11,7 @@ For C18 every reached state carries TLC's set of structurally equal ordered node
 import os
 
 from harness import common
-from harness.common import MachineryError, run_tlc, SPEC, workdir, parallel
+from harness.common import judge_traces, MachineryError, run_tlc, SPEC, workdir, parallel
 from harness.world import World, canon, jdump, Node, FIELDS as ALLF
 from harness.c09 import load_log_all, bfs_access, opkey
 
@@ -358,6 +358,31 @@ def run(rep, tier, seed):
     t = T[len(T) // 2]
     rep.sample({"template->copy->edit": [o for o, _ in G["access"][canon(t["from"])][1]] + [t["op"]]})
     rep.cov["evaluations"] = nT
+    # large instances: chains deeper and fans wider than any bounded model, copied at several nodes; TLC judges (Steps!CopyF)
+    traces = []
+    for shape, size in (("chain", 70), ("chain", 150), ("chain", 300), ("fan", 400), ("comb", 120)):
+        kids = [[] for _ in range(size)]
+        for i in range(2, size + 1):
+            par = i - 1 if shape == "chain" else (1 if shape == "fan" else (i - 2 if i % 2 == 1 and i > 2 else i - 1))
+            kids[par - 1].append(i)
+        st = {"name": ["a" if i % 3 else "b" for i in range(size)], "kids": kids}
+        w = World.build(st)
+        for i, x in enumerate(w.nodes):
+            x.content = None if i % 4 == 0 else f"text-{i % 5}"
+            if i % 7 == 0:
+                x.add_attribute("k", f"v{i % 3}")
+        tr = {"init": w.pi(ALLF), "events": [], "desc": {"shape": shape, "nodes": size}}
+        for src in (1, 2, size // 2):
+            ok, ret, exc = w.apply("copy", [src])
+            tr["events"].append({"op": "copy", "args": [src], "ok": ok, "ret": ret if isinstance(ret, int) else 0, "post": w.pi(ALLF)})
+        traces.append(tr)
+    rejects, rr = judge_traces([{"init": t["init"], "events": t["events"]} for t in traces], pid, label="large-copies", timeout=3000)
+    rep.cov["traces_validated_against_impl"] += len(traces)
+    for rj in rejects:
+        tr = traces[rj["trace"] - 1]
+        rep.violation(f"{pid}:copy:large:{','.join(sorted(rj['clauses']))}", f"copy of node {tr['events'][rj['event'] - 1]['args']} in a {tr['desc']} tree: clauses {rj['clauses']}",
+                      {"kind": "large-copy", "desc": tr["desc"], "event": rj["event"], "clauses": rj["clauses"]})
+    rep.notes["large_copies"] = [t["desc"] for t in traces]
     from harness import suite
     suite.run_for(rep, "C12")
     rep.cov["distinct_nontrivial"] = nT
